@@ -2,7 +2,7 @@
    kind = property*100 + sub-model.  [run] = what the model says the implementation must
    output on this input; [mon] = the property's monitor applied to the implementation's own
    observed output. *)
-From RainV Require Import Lib Tier Geometry SectionIO Meta Paths Wire Stree AddrList Cache Tracker Announcer Picker Ram InfoDl Magnet Admission PieceDl Leech MetaSess Life Registry Resume Priv Mse Owner.
+From RainV Require Import Lib Tier Geometry SectionIO Meta Paths Wire Stree AddrList Cache Tracker Announcer Picker Ram InfoDl Magnet Admission PieceDl Leech MetaSess Life Registry Resume Priv Mse Owner ConnLimit.
 
 Definition run (kind : Z) (inp : list Z) : list Z :=
   match kind with
@@ -45,6 +45,7 @@ Definition run (kind : Z) (inp : list Z) : list Z :=
   | 1203 => run_mse_initiator inp
   | 1204 => run_enc_policy inp
   | 1701 => run_ram inp
+  | 1702 => run_connlimit inp
   | 1901 => run_priv_flag inp
   | 2001 => run_owner inp
   | 2002 => run_api_stress inp
@@ -95,6 +96,7 @@ Definition mon (kind : Z) (inp obs : list Z) : bool :=
   | 1203 => list_eqb_Z (run_mse_initiator inp) obs
   | 1204 => list_eqb_Z (run_enc_policy inp) obs
   | 1701 => mon_ram inp obs
+  | 1702 => list_eqb_Z (run_connlimit inp) obs
   | 1801 => mon_blocklist inp obs
   | 1802 => mon_stree inp obs
   | 1803 => mon_addrlist inp obs
